@@ -14,28 +14,56 @@ structure St where
   handedSeen : List Nat := []   -- ids returned by wasted() so far
   tieScenes : List Nat := []    -- scenes for which some call had more than one optimal choice
   vshards : Nat := 1            -- voting workers of a batch tracker
+  visual : Bool := false
+  qCollect : Rat := 0           -- VisualSORT collect thresholds (Layer-G decision `collectOk` is taken here)
+  minArea : Rat := 0
+  ownCollect : Rat := 0
 
 /-! parsing -/
-def dropDet (ts : List String) : Option (Option Int × List String) :=
+/-- one detection: `xc yc angle aspect height conf custom` and, for the VisualSORT kinds,
+`quality|- nfeat f*`; returns custom id, quality (default 1), whether a feature is present -/
+def dropDet (visual : Bool) (ts : List String) : Option ((Option Int × Rat × Bool) × List String) :=
   match ts with
-  | _xc :: _yc :: _ang :: _asp :: _h :: _conf :: cu :: rest => (optTok int? cu).map (fun c => (c, rest))
+  | _xc :: _yc :: _ang :: _asp :: _h :: _conf :: cu :: rest => do
+    let c ← optTok int? cu
+    if !visual then pure ((c, 1, false), rest) else
+    match rest with
+    | q :: nf :: rest2 => do
+      let q ← optTok rat? q
+      let nf ← nf.toNat?
+      if rest2.length < nf then none else pure ((c, q.getD 1, nf > 0), rest2.drop nf)
+    | _ => none
   | _ => none
 
-def parseDets : Nat → Nat → List String → Option (List Det × List String)
+def parseDets (visual : Bool) : Nat → Nat → List String → Option (List Det × List String)
   | 0, _, ts => some ([], ts)
   | n+1, tok, ts => do
-    let (cu, rest) ← dropDet ts
-    let (ds, rest') ← parseDets n (tok + 1) rest
-    pure ({ tok := tok + 1, custom := cu } :: ds, rest')
+    let ((cu, q, hasF), rest) ← dropDet visual ts
+    let (ds, rest') ← parseDets visual n (tok + 1) rest
+    pure ({ tok := tok + 1, custom := cu, quality := q, feat := if hasF then tok + 1 else 0 } :: ds, rest')
 
-def parseScenes : Nat → Nat → List String → Option (List (Nat × List Det) × Nat × List String)
+def parseScenes (visual : Bool) : Nat → Nat → List String → Option (List (Nat × List Det) × Nat × List String)
   | 0, tok, ts => some ([], tok, ts)
   | n+1, tok, sc :: k :: ts => do
     let sc ← sc.toNat?; let k ← k.toNat?
-    let (ds, rest) ← parseDets k tok ts
-    let (more, tok', rest') ← parseScenes n (tok + k) rest
+    let (ds, rest) ← parseDets visual k tok ts
+    let (more, tok', rest') ← parseScenes visual n (tok + k) rest
     pure ((sc, ds) :: more, tok', rest')
   | _, _, _ => none
+
+/-- `G n (area share|-)*`: per detection the box area and own-area share the implementation computed -/
+def parseG : List String → Option (List (Rat × Option Rat) × List String)
+  | "G" :: n :: rest => do
+    let n ← n.toNat?
+    let rec go : Nat → List String → Option (List (Rat × Option Rat) × List String)
+      | 0, ts => some ([], ts)
+      | m+1, a :: sh :: ts => do
+        let a ← rat? a; let sh ← optTok rat? sh
+        let (r, ts') ← go m ts
+        pure ((a, sh) :: r, ts')
+      | _, _ => none
+    go n rest
+  | _ => none
 
 /-- section of the implementation answer starting with a marker -/
 def afterMarker (m : String) (ts : List String) : Option (List String) :=
@@ -89,19 +117,26 @@ def recsAt (ts : List String) : Option (Nat × List IRec × List String) :=
 /-! rendering of the model state in the executor's dump format -/
 def optI (x : Option Int) : String := match x with | some v => toString v | none => "-"
 
-def dumpTrk (t : Trk) : String :=
-  joinSp [toString t.id, toString t.scene, toString t.lastUpd, toString t.len, optI t.custom, showNats t.obsH, toString t.obsH.length]
+/-- a rational that is an exact f32 back to its wire token is not needed: qualities are compared by
+value, so they are rendered as exact rationals on both sides (see `normDump`) -/
+def dumpTrk (visual : Bool) (t : Trk) : String :=
+  let base := [toString t.id, toString t.scene, toString t.lastUpd, toString t.len, optI t.custom, showNats t.obsH, toString t.obsH.length]
+  if !visual then joinSp base else
+  joinSp (base ++ ["V", toString t.vcount, (match t.vt with | none => "-" | some true => "1" | some false => "0"), showNats t.featH,
+    toString t.gallery.length] ++ t.gallery.flatMap (fun g => [showRat g.quality, toString g.feat, if g.box then "1" else "0"]))
 
 def sortTrks (l : List Trk) : List Trk := l.mergeSort (fun a b => decide (a.id ≤ b.id))
 
-def dumpState (n : Nat) (st : Tracker.St) : String :=
+def dumpState (n : Nat) (st : Tracker.St) (visual : Bool := false) : String :=
   let l := sortTrks st.live; let w := sortTrks st.wasted
-  joinSp (["L", toString l.length] ++ l.map dumpTrk ++ ["W", toString w.length] ++ w.map dumpTrk ++
+  joinSp (["L", toString l.length] ++ l.map (dumpTrk visual) ++ ["W", toString w.length] ++ w.map (dumpTrk visual) ++
     ["A", showNats (shardCounts n st.live), "X", showNats (shardCounts n st.wasted)])
 
+/-- the implementation's dump with every float token replaced by its exact rational (gallery qualities) -/
 def implDump (impl : List String) : String :=
   match afterMarker "L" impl with
-  | some rest => joinSp ("L" :: rest.takeWhile (· != "EV"))
+  | some rest => joinSp ("L" :: (rest.takeWhile (· != "EV")).map (fun t =>
+      if t.length == 9 && t.startsWith "f" then (match rat? t with | some r => showRat r | none => t) else t))
   | none => "?"
 
 /-! ### validation of a logged batch-protocol trace against `BatchProtocol.step` -/
@@ -191,19 +226,28 @@ def handleNew (st : St) (args : List String) : St × String :=
         | _ => (0, false)
       if !ok then (st, bad "method") else
       let batch := kind == "bsort" || kind == "bvisual"
-      ({ cfg := { maxIdle := mi, histLen := hist, batchIds := batch, thr := thr }, st := {}, shards := sh, batch := batch,
-         vshards := _vsh.toNat?.getD 1 },
-       res true true [] s!"thr={thr}")
+      let visual := kind == "visual" || kind == "bvisual"
+      -- `V euclid|cosine thr minVotes minLen maxObs qUse qCollect minArea ownUse ownCollect`
+      let vsec := (afterMarker "V" rest).getD []
+      let minVotes := (vsec.getD 2 "1").toNat?.getD 1
+      let maxObs := (vsec.getD 4 "1").toNat?.getD 1
+      let qCollect := (rat? (vsec.getD 6 "")).getD 0
+      let minArea := (rat? (vsec.getD 7 "")).getD 0
+      let ownCollect := (rat? (vsec.getD 9 "")).getD 0
+      ({ cfg := { maxIdle := mi, histLen := hist, batchIds := batch, thr := thr, visual := visual, maxObs := maxObs, minVotes := minVotes },
+         st := {}, shards := sh, batch := batch, vshards := _vsh.toNat?.getD 1, visual := visual,
+         qCollect := qCollect, minArea := minArea, ownCollect := ownCollect },
+       res true true [] s!"thr={thr} visual={visual}")
     | _, _, _ => (st, bad "new args")
   | _ => (st, bad "new")
 
 def handlePredict (st : St) (args impl : List String) : St × String :=
   match args with
   | nsT :: rest =>
-    match nsT.toNat? >>= (fun ns => parseScenes ns st.nextTok rest) with
+    match nsT.toNat? >>= (fun ns => parseScenes st.visual ns st.nextTok rest) with
     | some (scenes, tok', []) =>
       -- per scene: table and records from the implementation
-      let rec gather : List (Nat × List Det) → List String → List (Nat × List Det × List Entry × List IRec) → Option (List (Nat × List Det × List Entry × List IRec))
+      let rec gather : List (Nat × List Det) → List String → List (Nat × List Det × List Entry × List IRec × List VEntry) → Option (List (Nat × List Det × List Entry × List IRec × List VEntry))
         | [], _, acc => some acc.reverse
         | (sc, ds) :: more, ts, acc =>
           let tblPart := if st.batch then afterMarker "Q" ts |>.bind (fun r => match r with
@@ -221,16 +265,35 @@ def handlePredict (st : St) (args impl : List String) : St × String :=
                   | none => findRecs r fuel
             match findRecs impl impl.length with
             | none => none
-            | some rs => gather more (if st.batch then afterTbl else ts) ((sc, ds, toEntries tbl, rs) :: acc)
+            | some rs =>
+              if !st.visual then gather more (if st.batch then afterTbl else ts) ((sc, ds, toEntries tbl, rs, []) :: acc) else
+              -- VisualSORT: per detection area / own-area share → the collect decision; entries with feature distances
+              match parseG afterTbl with
+              | none => none
+              | some (gsec, afterG) =>
+                let ds' := (ds.zip gsec).map (fun (d, (area, share)) =>
+                  { d with collectOk := decide (st.minArea ≤ area) && decide (st.qCollect ≤ d.quality) &&
+                      (match share with | some p => decide (st.ownCollect ≤ p) | none => true) })
+                let ves : List VEntry := tbl.map (fun (f, t, a, dd) => { det := f, tid := t, w := a.map AssignX.quantise, f := dd })
+                let decided := visualDecided st.cfg ves
+                gather more (if st.batch then afterG else ts) ((sc, ds', positionalRest decided ves, rs, ves) :: acc)
       match gather scenes impl [] with
       | none => (st, bad "predict: cannot parse implementation answer")
       | some gs =>
         let st1 := awStep st.cfg st.st
         -- picks are read off the implementation's records against the live set before the scene's step;
         -- scenes of one batch never share tracks, so the live set after the countdown serves all of them
+        let gsV := gs
+        let gs := gsV.map (fun (sc, ds, es, rs, _) => (sc, ds, es, rs))
         let withPicks := gs.map (fun (sc, ds, es, rs) => (sc, ds, es, picksOf st1 rs, rs))
+        let withPicksV := gsV.map (fun (sc, ds, _, rs, ves) => (sc, ds, ves, picksOf st1 rs))
         let modelRes : Option (Tracker.St × List (Nat × List Rec)) :=
-          if st.batch then predictBatch st.cfg st.st (withPicks.map (fun (sc, ds, es, ps, _) => (sc, ds, es, ps)))
+          if st.visual then
+            (if st.batch then predictBatchV st.cfg st.st withPicksV
+             else match withPicksV with
+               | [(sc, ds, ves, ps)] => (predictV st.cfg st.st sc ds ves ps).map (fun (s, r) => (s, [(sc, r)]))
+               | _ => none)
+          else if st.batch then predictBatch st.cfg st.st (withPicks.map (fun (sc, ds, es, ps, _) => (sc, ds, es, ps)))
           else match withPicks with
             | [(sc, ds, es, ps, _)] => (predict st.cfg st.st sc ds es ps).map (fun (s, r) => (s, [(sc, r)]))
             | _ => none
@@ -250,6 +313,11 @@ def handlePredict (st : St) (args impl : List String) : St × String :=
           flag (st.st.live.any (fun t => expired st.cfg st.st t)) "expired-uncollected" ++
           flag (st.st.awCounter == 0) "gc-runs" ++ flag (gs.length ≥ 2) "multi-scene-batch" ++
           flag (gs.any (fun (_, ds, _, _) => ds.isEmpty)) "empty-call" ++
+          flag (allRecs.any (·.vt)) "visual-attachment" ++
+          flag (gsV.any (fun (_, _, _, _, ves) => (visualDecided st.cfg ves).any (fun d => d.2.isNone))) "appearance-contest-lost" ++
+          flag (gsV.any (fun (_, _, es, _, ves) => !(visualDecided st.cfg ves).isEmpty && !es.isEmpty)) "appearance-and-positional" ++
+          flag (st.st.live.any (fun t => t.gallery.length ≥ st.cfg.maxObs && st.cfg.visual)) "gallery-full" ++
+          flag (gsV.any (fun (_, ds, _, _, _) => ds.any (fun d => d.feat != 0 && !d.collectOk))) "feature-not-collectable" ++
           flag ((st.st.live.map (·.scene)).eraseDups.length ≥ 2) "multi-scene-store" ++
           flag (gs.any (fun (_, _, es, _) => !AssignX.small (es.map (fun x => { q := x.det + 1, t := x.tid, w := x.w })))) "large-assignment-dp"
         -- on small instances the dynamic programme must agree with the exhaustive enumeration
@@ -268,7 +336,7 @@ def handlePredict (st : St) (args impl : List String) : St × String :=
           let kRecs := gs.all (fun (sc, _, _, rs) => match mrecs.find? (fun p => p.1 == sc) with
             | some (_, mr) => mr.length == rs.length && (mr.zip rs).all (fun (m, i) => recEq m i)
             | none => false)
-          let d := dumpState st.shards st'
+          let d := dumpState st.shards st' st.visual
           let kDump := d == implDump impl
           -- batch trackers: the logged protocol events must form a path of the protocol model
           let (trOk, trSteps, trWhy) : Bool × Nat × String :=
@@ -284,7 +352,8 @@ def handlePredict (st : St) (args impl : List String) : St × String :=
           let d := if trOk then d else d ++ s!" TRACE-INVALID {trWhy}"
           let ties := gs.filterMap (fun (sc, _, es, _) =>
             let aes : List AssignX.Entry := es.map (fun x => { q := x.det + 1, t := x.tid, w := x.w })
-            if AssignX.optCount aes st.cfg.thr > 1 then some sc else none)
+            if AssignX.optCount aes st.cfg.thr > 1 then some sc else none) ++
+            gsV.filterMap (fun (sc, _, _, _, ves) => if st.visual && !visualUnique st.cfg ves then some sc else none)
           ({ st with st := st', nextTok := tok', issued := (st.issued ++ ids).eraseDups, tieScenes := (st.tieScenes ++ ties).eraseDups },
            res (kRecs && kDump) (oLen && oEcho && oDistinct && oFresh && oEpoch && kDump) flags
              s!"kRecs={kRecs} kDump={kDump} o=[{oLen},{oEcho},{oDistinct},{oFresh},{oEpoch}] model={d}")
@@ -293,7 +362,7 @@ def handlePredict (st : St) (args impl : List String) : St × String :=
 
 def handleOp (st : St) (op : String) (args impl : List String) : St × String :=
   let fin (st' : Tracker.St) (tok : String) (o : Bool) (flags : List String) (extra : St → St := id) : St × String :=
-    let d := dumpState st.shards st'
+    let d := dumpState st.shards st' st.visual
     let implHead := joinSp (impl.takeWhile (· != "L"))
     let k := tok == implHead && d == implDump impl
     (extra { st with st := st' }, res k (o && k) flags s!"model={tok} {d}")
